@@ -9,7 +9,7 @@
   all-to-all edge, hence for both inputs of a hash-shipped join —, control elements to every
   connected replica with the `Terminate`/feedback and `ignore` exceptions, and forward
   connections deliver to exactly one replica, the same-(host, replica) one when it exists
-  (`forward_same_index`; false before commit 3deb123, finding F4, see Model/Placement.lean).
+  (`forward_same_index_single`; false before commit 3deb123, finding F4, see Model/Placement.lean).
 -/
 import NoirVerif.Lemmas.Router
 import NoirVerif.Props.C19
@@ -119,7 +119,7 @@ theorem groupBy_target_depends_on_key_only (cfg1 cfg2 : Cfg)
 /-- On an all-to-all edge into block `to`, the sorted consumer coordinates seen by ANY producer
     replica of ANY producer block (not ignoring `to`) are one and the same list: the sorted
     replicas of `to`. (The graph-model lemma that feeds `groupBy_target_depends_on_key_only`.) -/
-theorem all_to_all_senders_coords (cfgA cfgB : Cfg) (A B to : BlockInfo)
+theorem all_to_all_senders_coords_single (cfgA cfgB : Cfg) (A B to : BlockInfo)
     (hA : A.onlyOne = false) (hB : B.onlyOne = false)
     (hiA : cfgA.ignore.contains to.id = false) (hiB : cfgB.ignore.contains to.id = false)
     (fA fB : Coord) :
@@ -153,14 +153,14 @@ theorem all_to_all_senders_coords (cfgA cfgB : Cfg) (A B to : BlockInfo)
     `L` and `R` are connected all-to-all to the join block `J`; whatever replica of `L` and whatever
     replica of `R` produce two elements with the same key hash, they are delivered to the same
     replica of `J`. -/
-theorem join_inputs_meet (L R J : BlockInfo) (hL : L.onlyOne = false) (hR : R.onlyOne = false)
+theorem join_inputs_meet_single (L R J : BlockInfo) (hL : L.onlyOne = false) (hR : R.onlyOne = false)
     (fL fR : Coord) (hash : Nat) :
     let cfg : Cfg := { strategy := .groupBy }
     let sL := setup cfg L.id ((consumers L J false fL).map (·, false))
     let sR := setup cfg R.id ((consumers R J false fR).map (·, false))
     (dataTargets sL hash).map sL.coordAt = (dataTargets sR hash).map sR.coordAt := by
   intro cfg sL sR
-  have hc := all_to_all_senders_coords cfg cfg L R J hL hR (by simp [cfg]) (by simp [cfg]) fL fR
+  have hc := all_to_all_senders_coords_single cfg cfg L R J hL hR (by simp [cfg]) (by simp [cfg]) fL fR
   exact groupBy_target_depends_on_key_only cfg cfg rfl rfl L.id R.id _ _ hc 0 0 hash
 
 /-- **C03 (control elements).** Watermarks and end-of-iteration markers are enqueued to every
@@ -218,7 +218,7 @@ theorem control_reaches_all (cfg : Cfg) (me : Nat) (next : List (Coord × Bool))
     every data element to exactly one replica of the consumer block: the same-(host, replica) one
     when it exists (otherwise the single replica, or the fallback replica chosen by
     `build_execution_graph`). -/
-theorem forward_same_index (from_ to : BlockInfo) (hoo : from_.onlyOne = true)
+theorem forward_same_index_single (from_ to : BlockInfo) (hoo : from_.onlyOne = true)
     (hne : to.replicas ≠ []) (f : Coord) (idx : Nat) :
     let cfg : Cfg := { strategy := .onlyOne }
     let st := setup cfg from_.id ((consumers from_ to false f).map (·, false))
@@ -257,6 +257,153 @@ example :
   have hcl : st.closed = false := rfl
   have hp : st.panicked = false := rfl
   simp [step, hcl, hp, dataTargets, hg, Elem.isTerm, cfg, Strategy.index]
+
+/-! ## Producers with several downstream blocks
+
+  A block may have several next blocks (`split`, the iteration blocks, …): the `End` of a replica then
+  holds the connections of all its outgoing job-graph edges, in whatever order `connect` made them.
+  The `_single` statements above are the one-edge special cases. -/
+
+/-- the connections of producer replica `f` of block `A` whose outgoing edges are `outs`
+    (`(consumer block, fragile)`), edge after edge -/
+def nextOf (A : BlockInfo) (outs : List (BlockInfo × Bool)) (f : Coord) : List (Coord × Bool) :=
+  outs.flatMap fun o => (consumers A o.1 o.2 f).map (·, o.2)
+
+theorem consumers_block (A T : BlockInfo) (fr : Bool) (f t : Coord)
+    (h : t ∈ consumers A T fr f) : t.block = T.id := by
+  have hsub : t ∈ T.replicas := by
+    rw [consumers_eq] at h
+    rcases List.mem_append.mp h with h | h
+    · split at h
+      · split at h
+        · rename_i t' ht'
+          simp at h; subst h
+          exact List.mem_of_getElem? ht'
+        · simp at h
+      · simp at h
+    · exact (List.mem_filter.mp h).1
+  exact ((mem_replicas T t).mp hsub).1
+
+theorem nextOf_blocks (A : BlockInfo) (f : Coord) : ∀ (outs : List (BlockInfo × Bool)),
+    ∀ p ∈ nextOf A outs f, p.1.block ∈ outs.map (·.1.id) := by
+  intro outs p hp
+  simp only [nextOf, List.mem_flatMap, List.mem_map] at hp
+  obtain ⟨o, ho, t, ht, rfl⟩ := hp
+  exact List.mem_map.mpr ⟨o, ho, (consumers_block A o.1 o.2 f t ht).symm⟩
+
+/-- among all the connections of the replica, those towards block `J` are exactly the consumers of
+    the edge to `J` (edges lead to pairwise distinct blocks) -/
+theorem nextOf_filter (A : BlockInfo) (f : Coord) (J : BlockInfo) (fr : Bool) :
+    ∀ (outs : List (BlockInfo × Bool)), (J, fr) ∈ outs → (outs.map (·.1.id)).Nodup →
+    (nextOf A outs f).filter (fun p => p.1.block == J.id) = (consumers A J fr f).map (·, fr) := by
+  intro outs
+  induction outs with
+  | nil => intro h; simp at h
+  | cons o os ih =>
+    intro hmem hnd
+    rw [List.map_cons, List.nodup_cons] at hnd
+    have hsplit : nextOf A (o :: os) f = (consumers A o.1 o.2 f).map (·, o.2) ++ nextOf A os f := by
+      simp [nextOf]
+    rw [hsplit, List.filter_append]
+    by_cases hid : o.1.id = J.id
+    · have ho : o = (J, fr) := by
+        rcases List.mem_cons.mp hmem with h | h
+        · exact h.symm
+        · exact absurd (List.mem_map.mpr ⟨(J, fr), h, hid.symm⟩) hnd.1
+      subst ho
+      have htail : (nextOf A os f).filter (fun p => p.1.block == J.id) = [] := by
+        rw [List.filter_eq_nil_iff]
+        intro p hp hb
+        have := nextOf_blocks A f os p hp
+        have hb' : p.1.block = J.id := by simpa using hb
+        rw [hb'] at this
+        exact hnd.1 this
+      rw [htail, List.append_nil, List.filter_eq_self]
+      intro p hp
+      obtain ⟨t, ht, rfl⟩ := List.mem_map.mp hp
+      simp [consumers_block A J fr f t ht]
+    · have hhead : ((consumers A o.1 o.2 f).map (·, o.2)).filter (fun p => p.1.block == J.id) = [] := by
+        rw [List.filter_eq_nil_iff]
+        intro p hp hb
+        obtain ⟨t, ht, rfl⟩ := List.mem_map.mp hp
+        have := consumers_block A o.1 o.2 f t ht
+        simp only [beq_iff_eq] at hb
+        exact hid (this ▸ hb)
+      have hmem' : (J, fr) ∈ os := by
+        rcases List.mem_cons.mp hmem with h | h
+        · exact absurd (by rw [← h]) hid
+        · exact h
+      rw [hhead, List.nil_append, ih hmem' hnd.2]
+
+/-- **C03 (exactly one replica per downstream block, as coordinates).** For `OnlyOne`, `Random` and
+    `GroupBy` the element is delivered, for every downstream block `b`, to
+    `sorted senders towards b [index % #senders towards b]` (`targetIn`). -/
+theorem data_target_per_block (cfg : Cfg) (hs : cfg.strategy ≠ .all) (me : Nat)
+    (next : List (Coord × Bool)) (idx : Nat) :
+    let st := setup cfg me next
+    (dataTargets st idx).map st.coordAt =
+      (blocksOf st.blocks).map (fun b => targetIn st.senders b idx) := by
+  intro st
+  rw [dataTargets_eq st cfg.strategy hs st.blocks (setup_groups cfg me next) idx, List.map_map]
+  apply List.map_congr_left
+  intro b hb
+  exact pick_coord st.senders idx b ((mem_blocksOf b _).mp hb)
+
+/-- **C03 (group-by, any number of downstream blocks).** On an all-to-all edge `A → J`, whatever
+    other edges leave `A` and in whatever order the connections were made, the replica of `J` that
+    receives a key depends only on the key's hash: it is `J.replicas[hash % #J.replicas]` — the
+    same expression for every producer replica of every producer block. -/
+theorem all_to_all_senders_coords (cfg : Cfg) (A : BlockInfo) (outs : List (BlockInfo × Bool))
+    (J : BlockInfo) (hA : A.onlyOne = false) (hmem : (J, false) ∈ outs)
+    (hids : (outs.map (·.1.id)).Nodup) (hi : cfg.ignore.contains J.id = false) (f : Coord)
+    (hash : Nat) :
+    let st := setup cfg A.id (nextOf A outs f)
+    (sendersTo st.senders J.id).map (·.coord) = J.replicas ∧
+    targetIn st.senders J.id hash = J.replicas[hash % J.replicas.length]? := by
+  intro st
+  have hcs : (sendersTo st.senders J.id).map (·.coord) = J.replicas := by
+    apply sendersTo_coords cfg A.id (nextOf A outs f) J.id J.replicas _ hi (replicas_sorted J)
+    rw [nextOf_filter A f J false outs hmem hids, consumers_non_forward A J f hA]
+  refine ⟨hcs, ?_⟩
+  unfold targetIn
+  simp only [hcs]
+
+/-- **C03 (equal keys of both join inputs meet), any number of downstream blocks.** Both inputs
+    `L`, `R` of a hash-shipped join are connected all-to-all to the join block `J` (and possibly to
+    other blocks); elements with equal key hash, from any replica of `L` and any replica of `R`, are
+    delivered to the same replica of `J`. -/
+theorem join_inputs_meet (cfgL cfgR : Cfg) (L R J : BlockInfo)
+    (outsL outsR : List (BlockInfo × Bool))
+    (hL : L.onlyOne = false) (hR : R.onlyOne = false)
+    (hmL : (J, false) ∈ outsL) (hmR : (J, false) ∈ outsR)
+    (hidL : (outsL.map (·.1.id)).Nodup) (hidR : (outsR.map (·.1.id)).Nodup)
+    (hiL : cfgL.ignore.contains J.id = false) (hiR : cfgR.ignore.contains J.id = false)
+    (fL fR : Coord) (hash : Nat) :
+    targetIn (setup cfgL L.id (nextOf L outsL fL)).senders J.id hash =
+      targetIn (setup cfgR R.id (nextOf R outsR fR)).senders J.id hash := by
+  rw [(all_to_all_senders_coords cfgL L outsL J hL hmL hidL hiL fL hash).2,
+    (all_to_all_senders_coords cfgR R outsR J hR hmR hidR hiR fR hash).2]
+
+/-- **C03 (forward, any number of downstream blocks).** On a non-fragile forward edge `A → J`
+    among the edges leaving `A`, every producer replica has exactly one sender towards `J` (so the
+    `OnlyOne` assertion of `End` holds for that block) and every data element goes to that replica:
+    the same-(host, replica) one when it exists. -/
+theorem forward_same_index (cfg : Cfg) (A : BlockInfo) (outs : List (BlockInfo × Bool))
+    (J : BlockInfo) (hoo : A.onlyOne = true) (hne : J.replicas ≠ []) (hmem : (J, false) ∈ outs)
+    (hids : (outs.map (·.1.id)).Nodup) (hi : cfg.ignore.contains J.id = false) (f : Coord) :
+    let st := setup cfg A.id (nextOf A outs f)
+    ∃ t ∈ J.replicas, (sendersTo st.senders J.id).map (·.coord) = [t] ∧
+      (∀ idx, targetIn st.senders J.id idx = some t) ∧
+      (partner J f ∈ J.replicas → t = partner J f) := by
+  intro st
+  obtain ⟨t, ht, hc, hpt⟩ := forward_exactly_one_consumer A J hoo hne f
+  have hcs : (sendersTo st.senders J.id).map (·.coord) = [t] := by
+    apply sendersTo_coords cfg A.id (nextOf A outs f) J.id [t] _ hi (by simp)
+    rw [nextOf_filter A f J false outs hmem hids, hc]
+  refine ⟨t, ht, hcs, ?_, hpt⟩
+  intro idx
+  unfold targetIn
+  simp [hcs, Nat.mod_one]
 
 /-! ## RoutingEnd (`Stream::route`, route.rs): facts about `routeData`; the operator model, driver and
      harness of the `route` component belong to C09 (`Model/Route.lean`) -/
